@@ -38,6 +38,12 @@ inductive Stmt where
   | caseS (a : Stmt)
   /-- `of body endof` -/
   | arm (tOf tEndof : Nat) (body : Stmt)
+  /-- `: name body ;` — at run time a definition is jumped over; the name is bound by the parser -/
+  | defn (tColon tSemi : Nat) (body : Stmt)
+  /-- call of the interpreted word whose body starts at `addr`. `ret` is the address the compiler gives the
+      opcode after the call: the evaluator copies it into the frame it pushes (so that frames are comparable
+      with the VM's) and never looks at it -/
+  | call (t : Nat) (addr ret : Nat)
 deriving DecidableEq, Repr
 
 /-- number of opcodes a statement compiles to (independent of the context) -/
@@ -54,6 +60,8 @@ def size : Stmt → Nat
   | .brk _ => 1
   | .caseS a => size a
   | .arm _ _ body => 1 + size body + 1
+  | .defn _ _ body => 1 + size body + 1
+  | .call _ _ _ => 1
 
 /-- what `break` means here: nothing encloses it, or a `begin` loop / a counted loop whose exit lies
     `k` opcodes after the end of the current fragment -/
@@ -70,7 +78,8 @@ def BK.shift : BK → Nat → BK
 
 /-- straight-line opcodes: they fall through to the next instruction whenever they succeed -/
 def straight : Op → Bool
-  | .nop | .native _ | .load _ | .loadNil | .loadI64 _ | .loadF64 _ | .loadStr _ | .loadCell _ | .store _ => true
+  | .nop | .native _ | .load _ | .loadNil | .loadI64 _ | .loadF64 _ | .loadStr _ | .loadCell _ | .store _
+  | .initLocal _ | .loadLocal _ => true
   | _ => false
 
 /-- the compositional compiler: opcode × token index. `ce` = distance from the end of the fragment
@@ -98,6 +107,8 @@ def compileS : Stmt → BK → Option Nat → List (Op × Nat)
   | .caseS a, bk, _ => compileS a bk (some 0)
   | .arm tOf tEndof body, bk, ce =>
     (.caseOf (size body + 2), tOf) :: compileS body (bk.shift 1) none ++ [(.jump ((ce.getD 0 : Nat) + 1), tEndof)]
+  | .defn tc ts body, _, _ => (.jump (size body + 2), tc) :: compileS body .none none ++ [(.ret, ts)]
+  | .call t addr _, _, _ => [(.call addr, t)]
 
 /-- well-formedness w.r.t. the grammar the flow-stack compiler accepts: `break` only with a loop
     open (and never directly inside `begin … until` or a `while` condition), arms only in the spine
@@ -115,6 +126,44 @@ def WFS : Stmt → (brkOk armOk : Bool) → Bool
   | .brk _, k, _ => k
   | .caseS a, k, _ => WFS a k true
   | .arm _ _ body, k, r => r && WFS body k false
+  | .defn _ _ body, _, _ => WFS body false false
+  | .call _ _ _, _, _ => true
+
+/-- the interpreted words a program can call: entry address ↦ (body, token of its `;`) -/
+abbrev FunTab := Nat → Option (Stmt × Nat)
+
+/-- positions: every call node refers to a word of the table and carries the address of the opcode after it
+    (the parser computes it; the evaluator only copies it into the frame) -/
+def placed (F : FunTab) : Stmt → Nat → Bool
+  | .call _ addr ret, pc => ret == pc + 1 && (F addr).isSome
+  | .seq a b, pc => placed F a pc && placed F b (pc + size a)
+  | .ifThen _ a, pc => placed F a (pc + 1)
+  | .ifElse _ _ a b, pc => placed F a (pc + 1) && placed F b (pc + 1 + size a + 1)
+  | .untilLoop _ a, pc => placed F a pc
+  | .whileLoop _ _ c a, pc => placed F c pc && placed F a (pc + size c + 1)
+  | .repeatLoop _ a, pc => placed F a pc
+  | .doLoop _ _ a, pc => placed F a (pc + 1)
+  | .caseS a, pc => placed F a pc
+  | .arm _ _ b, pc => placed F b (pc + 1)
+  | .defn _ _ b, pc => placed F b (pc + 1)
+  | _, _ => true
+
+/-- the definitions of a program with the addresses the compiler gives them: (entry address, body, token of `;`) -/
+def funsOf : Stmt → Nat → List (Nat × Stmt × Nat)
+  | .defn _ ts b, pc => (pc + 1, b, ts) :: funsOf b (pc + 1)
+  | .seq a b, pc => funsOf a pc ++ funsOf b (pc + size a)
+  | .ifThen _ a, pc => funsOf a (pc + 1)
+  | .ifElse _ _ a b, pc => funsOf a (pc + 1) ++ funsOf b (pc + 1 + size a + 1)
+  | .untilLoop _ a, pc => funsOf a pc
+  | .whileLoop _ _ c a, pc => funsOf c pc ++ funsOf a (pc + size c + 1)
+  | .repeatLoop _ a, pc => funsOf a pc
+  | .doLoop _ _ a, pc => funsOf a (pc + 1)
+  | .caseS a, pc => funsOf a pc
+  | .arm _ _ b, pc => funsOf b (pc + 1)
+  | _, _ => []
+
+/-- the function table of a whole program (compiled at address 0) -/
+def tabOf (st : Stmt) : FunTab := fun addr => ((funsOf st 0).find? (·.1 == addr)).map (·.2)
 
 /-! ### structural evaluation -/
 
@@ -153,6 +202,27 @@ def straightEff (np : String → Option Prog) (m : Mach) : Op → R Unit
     | (.ok v, m) => m.swapCellRef idx v
     | (.err e, m) => (.err e, m)
     | (.panic s, m) => (.panic s, m)
+  | .initLocal idx =>
+    match m.popData with
+    | (.ok v, m) =>
+      match m.rs with
+      | f :: rest =>
+        if m.rs.length > m.ctx.rsLen then
+          let f' : Frame := { f with locals := setLocal f.locals idx v }
+          let m' : Mach := { m with rs := f' :: rest }
+          (.ok (), m'.logStep (.restoreLocals f.locals))
+        else (.err .returnStackUnderflow, m)
+      | [] => (.err .returnStackUnderflow, m)
+    | (.err e, m) => (.err e, m)
+    | (.panic s, m) => (.panic s, m)
+  | .loadLocal i =>
+    match m.topFrame with
+    | .ok f =>
+      match f.locals[i]? with
+      | some v => m.pushData v
+      | none => (.err (localOutOfBounds i), m)
+    | .err e => (.err e, m)
+    | .panic s => (.panic s, m)
   | _ => (.panic "model: not a straight-line opcode", m)
 
 /-- pop a condition (`JumpIfNot`'s operand) -/
@@ -193,61 +263,73 @@ def ofR (r : R α) (tok : Nat) (k : α → Mach → Res) : Res :=
 mutual
 /-- Structural big-step evaluation. `fuel` bounds the depth of the evaluation (every recursive call,
     in particular every loop iteration, costs one unit); every theorem quantifies over all fuel. -/
-def evalS (np : String → Option Prog) : Nat → Stmt → Mach → Res
+def evalS (np : String → Option Prog) (F : FunTab) : Nat → Stmt → Mach → Res
   | 0, _, _ => .timeout
   | f + 1, s, m =>
     match s with
     | .skip => .ok m
     | .op t o => ofR (straightEff np m o) t fun _ m => .ok m
     | .seq a b =>
-      match evalS np f a m with
-      | .ok m => evalS np f b m
+      match evalS np F f a m with
+      | .ok m => evalS np F f b m
       | r => r
-    | .ifThen t a => ofR (popCond m) t fun c m => if c then evalS np f a m else .ok m
-    | .ifElse t _ a b => ofR (popCond m) t fun c m => if c then evalS np f a m else evalS np f b m
+    | .ifThen t a => ofR (popCond m) t fun c m => if c then evalS np F f a m else .ok m
+    | .ifElse t _ a b => ofR (popCond m) t fun c m => if c then evalS np F f a m else evalS np F f b m
     | .untilLoop t a =>
-      match evalS np f a m with
-      | .ok m => ofR (popCond m) t fun c m => if c then .ok m else evalS np f (.untilLoop t a) m
+      match evalS np F f a m with
+      | .ok m => ofR (popCond m) t fun c m => if c then .ok m else evalS np F f (.untilLoop t a) m
       | r => r
     | .whileLoop tw tr c a =>
-      match evalS np f c m with
+      match evalS np F f c m with
       | .ok m =>
         ofR (popCond m) tw fun b m =>
           if b then
-            match evalS np f a m with
-            | .ok m => evalS np f (.whileLoop tw tr c a) m
+            match evalS np F f a m with
+            | .ok m => evalS np F f (.whileLoop tw tr c a) m
             | .brk _ m => .ok m
             | r => r
           else .ok m
       | r => r
     | .repeatLoop tr a =>
-      match evalS np f a m with
-      | .ok m => evalS np f (.repeatLoop tr a) m
+      match evalS np F f a m with
+      | .ok m => evalS np F f (.repeatLoop tr a) m
       | .brk _ m => .ok m
       | r => r
     | .doLoop td tl a =>
       ofR m.doInit td fun l m =>
-        if l.start < l.stop then doIter np f tl a (m.pushLoop l) else .ok m
+        if l.start < l.stop then doIter np F f tl a (m.pushLoop l) else .ok m
     | .brk t => .brk t m
     | .caseS a =>
-      match evalS np f a m with
+      match evalS np F f a m with
       | .exitCase m => .ok m
       | r => r
     | .arm tOf _ body =>
       ofR (caseTest m) tOf fun hit m =>
         if hit then
-          match evalS np f body m with
+          match evalS np F f body m with
           | .ok m => .exitCase m
           | r => r
         else .ok m
+    | .defn _ _ _ => .ok m
+    | .call _ addr ret =>
+      match F addr with
+      | some (body, tSemi) =>
+        -- a frame for the callee, its body, then `;` pops the frame
+        match evalS np F f body (m.pushReturn { fnAddr := addr, returnTo := ret, locals := [] }) with
+        | .ok m => ofR m.popReturn tSemi fun _ m => .ok m
+        -- no `break` and no finished arm leaves a definition (the parser rejects such bodies)
+        | .brk t m => .panic "model: break escaping a definition" t m
+        | .exitCase m => .panic "model: endof escaping a definition" tSemi m
+        | r => r
+      | none => .panic "model: call of a word outside the function table" 0 m
 /-- the iterations of a counted loop whose `Loop` record is on the loop stack -/
-def doIter (np : String → Option Prog) : Nat → Nat → Stmt → Mach → Res
+def doIter (np : String → Option Prog) (F : FunTab) : Nat → Nat → Stmt → Mach → Res
   | 0, _, _, _ => .timeout
   | f + 1, tl, a, m =>
-    match evalS np f a m with
+    match evalS np F f a m with
     | .ok m =>
       ofR m.loopNext tl fun more m =>
-        if more then doIter np f tl a m
+        if more then doIter np F f tl a m
         else ofR m.popLoop tl fun _ m => .ok m
     | .brk tb m =>
       -- `break` inside a counted loop is the `Break` opcode: it pops the loop record
